@@ -1,5 +1,6 @@
 import Vanguard.Lemmas.Headers
 import Vanguard.Lemmas.RespHeaders
+import Vanguard.Lemmas.TrailerRelay
 /-!
   C05 — Application headers and trailers survive transcoding in both directions.
 
@@ -19,7 +20,15 @@ import Vanguard.Lemmas.RespHeaders
   (`status_keys_never_leak`), other trailer keys are untouched by the status extraction.
   Trailer relocation (which place the client's protocol defines) and error responses: compared field
   by field between model and implementation on every e2e scenario (`ch`, `ct`), and checked against
-  the scenario's ground truth by `oracleC05`.  Partial: no theorem for the trailer relocation.
+  the scenario's ground truth by `oracleC05`.
+  Proved, **trailers in the place the client's protocol defines** (every state the response writer can
+  reach, `Good`): the trailers of the RPC's end - the ones the backend's protocol handler extracted, or the
+  ones the handler stored when the end has none (`effTrailers`) - reach a Connect-streaming client inside
+  its end-of-stream frame, always (`connect_stream_trailers_in_end_of_stream`); a gRPC-Web client, once the
+  head is out, inside its trailer frame (`grpc_web_trailers_in_trailer_frame`); a gRPC client, once the
+  head is out, as HTTP trailers merged under the `Trailer:` prefix (`grpc_trailers_in_http_trailers`).
+  Partial: trailers-only responses of gRPC / gRPC-Web clients (end in the head) and the `Trailer-`
+  headers of a unary Connect client are compared and checked by the oracle, not proved.
 -/
 namespace Vanguard.C05
 open Vanguard
@@ -81,6 +90,37 @@ theorem status_keys_never_leak (tb : Tables) (h : Hdr) :
 theorem trailer_keys_survive_status_extraction (tb : Tables) (h : Hdr) (k : Bytes) (hk : RespApp k) :
     (grpcExtractErrorFromTrailer tb h).2.values k = h.values k :=
   grpcExtractErrorFromTrailer_values tb h k hk
+
+/-! ### trailers in the place the client's protocol defines -/
+
+/-- A Connect-streaming client gets the end of the RPC - error and trailers - as its end-of-stream
+    frame (flags 2), whether or not the head was already sent. -/
+theorem connect_stream_trailers_in_end_of_stream (w : World) (st : St) (e : RespEnd) (hg : Good st)
+    (hopen : st.rw.endWritten = false) (hc : st.op.cform = .connectStream) :
+    ∃ e', (reportEnd w st e).1.sink.endItem = some (.endFrame 2 e') ∧ e'.err = e.err ∧ e'.trailers = effTrailers st e :=
+  reportEnd_stream_frame w st e hg hopen hc
+
+/-- A gRPC-Web client whose head is out gets error and trailers as its trailer frame (flags 0x80). -/
+theorem grpc_web_trailers_in_trailer_frame (w : World) (st : St) (e : RespEnd) (hg : Good st)
+    (hopen : st.rw.endWritten = false) (hfl : st.rw.headersFlushed = true) (hc : st.op.cform = .grpcWeb) :
+    ∃ e', (reportEnd w st e).1.sink.endItem = some (.endFrame 0x80 e') ∧ e'.err = e.err ∧ e'.trailers = effTrailers st e := by
+  obtain ⟨f, e', h1, h2, h3, h4⟩ := reportEnd_late_frame w st e hg hopen hfl (Or.inl hc)
+  rw [hc] at h4; simp at h4; subst h4
+  exact ⟨e', h1, h2, h3⟩
+
+/-- A gRPC client whose head is out gets the trailers as HTTP trailers and the status in them. -/
+theorem grpc_trailers_in_http_trailers (w : World) (st : St) (e : RespEnd) (hopen : st.rw.endWritten = false)
+    (hfl : st.rw.headersFlushed = true) (hc : st.op.cform = .grpc) :
+    (reportEnd w st e).1.sink.hdr = httpMergeTrailers (cleanedHdr st) (effTrailers st e) ∧
+    (reportEnd w st e).1.sink.trailerEndSet = true ∧ (reportEnd w st e).1.sink.trailerEnd = e.err :=
+  reportEnd_late_grpc w st e hopen hfl hc
+
+/-- Non-vacuity (kernel-evaluated): a Connect-streaming client, end with one trailer. -/
+def tOp : Op := { conf := { path := s "/p.S/M", streamType := .bidi, noSideEffects := false, protocols := [.grpc], codecs := [rawName], compressors := [], maxMsg := 100, maxGetURL := 100 }, cform := .connectStream, sform := .grpc, reqMeta := {}, ccodec := rawName, scodec := rawName, cReqComp := none, sReqComp := none, headers := [], contentLen := -1, query := [], reqMethod := sPOST }
+def tSt : St := { op := tOp, src := { chunks := [], ending := .eof }, sink := {} }
+example : Good tSt ∧ tSt.rw.endWritten = false := ⟨good_init _ _, rfl⟩
+example : ((reportEnd fakeWorld tSt { trailers := [(s "X-T", [[7]])] }).1.sink.endItem.map fun i =>
+    match i with | .endFrame f e => (f, e.trailers) | _ => (0, [])) = some (2, [(s "X-T", [[7]])]) := by decide +kernel
 
 /-! Non-vacuity: a gRPC-Web client in front of a gRPC backend whose handler set `X-App` and the
     gRPC content type: `WriteHeader(200)` flushes the head, does not end the RPC, and the head the
